@@ -48,7 +48,19 @@
        by it: the get returns the put's content unless a write on the key applied after the
        put's own linearisation point intervenes; C05_put_applied_at_return.
    P6  examples by vm_compute (toyH, lex_cmp): a reader racing an overwriting writer under two
-       schedules, with the witness positions. *)
+       schedules, with the witness positions.
+
+   FAULTS.  Everything holds for ARBITRARY fault parameters bad / ckbad.  A call that can fail
+   ([can_err]: put, remove, remove_range, get, checkpoint) may return the I/O error CErr:
+   [lin_spec c r m] = (can_err c /\ r = CErr) \/ [lin_spec0 c r m] (the fault-free spec), so the
+   interval / own-step / write-log parts of C05_calls_linearizable also cover failed calls.
+   The read / remove theorems (P2, P5) are stated for results other than CErr (r <> CErr).
+   [writes c r] = the call is KNOWN to have an entry in the write log: a removal returns CErr
+   only after its apply (failed unlink / failed rollover checkpoint), so writes (KRemove _) CErr
+   = true; a put returns CErr either before registering its write (failed rename: no entry) or
+   after its apply, so writes (KPut _ _) CErr = false and the converse direction of P4 says
+   [may_write c r] = writes c r = true \/ r = CErr.  P3 needs rp <> CErr and ru <> CErr.
+   Without faults no result is CErr (ConcProofs.no_faults_no_errors). *)
 From Cas Require Import Base Codec SMap Index Conc.
 From CasProofs Require Import SMapProofs IndexProofs ConcInv ConcProofs ConcExamples.
 From Coq Require Import List NArith Lia Bool Arith Sorted.
@@ -117,14 +129,35 @@ Definition immediate (c : ccall) : bool :=
 (* calls whose result depends on the key map *)
 Definition observes (c : ccall) : bool :=
   match c with KGet _ | KGetSize _ | KRemove _ | KRemoveRange _ _ => true | _ => false end.
-(* calls (with their result) that apply a write operation *)
+(* the I/O error result *)
+Definition is_err (r : cres) : bool := match r with CErr => true | _ => false end.
+(* calls that may return an I/O error under the fault parameters bad / ckbad *)
+Definition can_err (c : ccall) : bool :=
+  match c with
+  | KPut _ _ | KRemove _ | KRemoveRange _ _ | KGet _ | KCheckpoint => true
+  | _ => false
+  end.
+(* calls (with their result) that are KNOWN to have applied a write operation.  A removal
+   returns CErr only after its operation was applied (failed unlink / failed rollover
+   checkpoint); a put that returns CErr may (same two failures) or may not (failed rename)
+   have applied its operation, so nothing is claimed for it: see [may_write] *)
 Definition writes (c : ccall) (r : cres) : bool :=
   match c, r with
-  | KPut _ _, _ => true
+  | KPut _ _, r => negb (is_err r)
   | KRemove _, CBool b => b
+  | KRemove _, CErr => true
   | KRemoveRange _ _, CNum n => negb (n =? 0)
+  | KRemoveRange _ _, CErr => true
   | _, _ => false
   end.
+(* calls (with their result) that MAY have applied a write operation *)
+Definition may_write (c : ccall) (r : cres) : Prop := writes c r = true \/ r = CErr.
+
+Lemma is_err_false r : r <> CErr -> is_err r = false.
+Proof. destruct r; try reflexivity. intros X; exfalso; apply X; reflexivity. Qed.
+
+Lemma writes_can_err c r : writes c r = true -> can_err c = true.
+Proof. destruct c; cbn [writes can_err]; try reflexivity; destruct r; discriminate. Qed.
 (* the pc at which a call observes the key map *)
 Definition lin_pc (c : ccall) (p : pc) : Prop :=
   match c with
@@ -147,6 +180,8 @@ Section Lin.
   Hypothesis cmp_antisym : forall a b, cmp b a = CompOpp (cmp a b).
   Hypothesis cmp_trans : forall a b c, cmp a b = Lt -> cmp b c = Lt -> cmp a c = Lt.
   Variable nops : N.
+  Variable bad : bytes -> bool.
+  Variable ckbad : bool.
   Variable thr0 : list (nat * list ccall).
   Hypothesis thr0_nodup : NoDup (map fst thr0).
   Variable cas0 : smap bytes.
@@ -156,10 +191,10 @@ Section Lin.
     forall a b, In a (allc thr0 cas0) -> In b (allc thr0 cas0) -> H a = H b -> a = b.
 
   Local Notation KX L := (L cmp cmp_refl cmp_eq cmp_antisym cmp_trans) (only parsing).
-  Local Notation Inv := (ConcInv H cmp thr0 cas0).
-  Local Notation Reach := (reachable H cmp nops thr0 cas0).
-  Local Notation step := (cstep H cmp nops).
-  Local Notation run := (crun H cmp nops).
+  Local Notation Inv := (ConcInv H cmp bad thr0 cas0).
+  Local Notation Reach := (reachable H cmp nops bad ckbad thr0 cas0).
+  Local Notation step := (cstep H cmp nops bad ckbad).
+  Local Notation run := (crun H cmp nops bad ckbad).
   Local Notation g0 := (init_c thr0 cas0).
 
   Lemma rinv' g : Reach g -> Inv g.
@@ -234,7 +269,7 @@ Section Lin.
 
   (* ---------------------------------------------------------------------------------- *)
   (* when does a key map m justify the result r of a call c *)
-  Definition lin_spec (c : ccall) (r : cres) (m : smap item) : Prop :=
+  Definition lin_spec0 (c : ccall) (r : cres) (m : smap item) : Prop :=
     match c with
     | KPut _ _ | KAbort _ _ | KCheckpoint => r = CUnit
     | KRemove k => r = CBool (match sm_get cmp m k with Some _ => true | None => false end)
@@ -248,6 +283,18 @@ Section Lin.
     | KGetSize k => r = CSize (option_map isize (sm_get cmp m k))
     | KDelOrphans _ => exists d s, r = COrphans d s
     end.
+  (* ... or the call is one that can fail and it returned the I/O error *)
+  Definition lin_spec (c : ccall) (r : cres) (m : smap item) : Prop :=
+    (can_err c = true /\ r = CErr) \/ lin_spec0 c r m.
+
+  Lemma lin_ok c r m : lin_spec0 c r m -> lin_spec c r m.
+  Proof. intros X. right. exact X. Qed.
+  Lemma lin_err c m : can_err c = true -> lin_spec c CErr m.
+  Proof. intros X. left. split; [exact X|reflexivity]. Qed.
+  Lemma lin_inv c r m : lin_spec c r m -> r <> CErr -> lin_spec0 c r m.
+  Proof. intros [[_ X]|X] N; [contradiction|exact X]. Qed.
+  Lemma lin_inv' c r m : can_err c = false -> lin_spec c r m -> lin_spec0 c r m.
+  Proof. intros E [[X _]|X]; [congruence|exact X]. Qed.
 
   (* the content found by open_blob under the hash of a valid item is the item's content *)
   Lemma open_content g it c : Inv g -> valid_item H thr0 cas0 it ->
@@ -255,8 +302,8 @@ Section Lin.
     In c (allc thr0 cas0) /\ H c = ihash it /\ len c = isize it.
   Proof.
     intros I (c0 & Ic0 & Hh0 & Hl0) G.
-    apply (lex_get_in _ _ _ (ci_cas_sorted _ _ _ _ _ I)) in G.
-    destruct (ci_cas_named _ _ _ _ _ I _ _ G) as [Hh Ic].
+    apply (lex_get_in _ _ _ (ci_cas_sorted _ _ _ _ _ _ I)) in G.
+    destruct (ci_cas_named _ _ _ _ _ _ I _ _ G) as [Hh Ic].
     assert (c0 = c) by (apply NoCollideC; try assumption; congruence).
     subst c0. repeat split; assumption.
   Qed.
@@ -306,7 +353,7 @@ Section Lin.
       ((t_pc ts' = Idle /\ exists r, t_res ts' = t_res ts ++ [r] /\
           (applied_pc (t_pc ts) = true ->
              (exists w, t_pc ts = WReleased w false /\ r = wres w) \/
-             (exists e, t_pc ts = WCkW r (Npos e)))) \/
+             (exists e, t_pc ts = WCkW r (Npos e)) \/ r = CErr)) \/
        (t_res ts' = t_res ts /\
         (applied_pc (t_pc ts) = true -> applied_pc (t_pc ts') = true) /\
         (forall w, t_pc ts = WLockW w -> applied_pc (t_pc ts') = true))).
@@ -318,8 +365,12 @@ Section Lin.
       first [ solve [left; split; [reflexivity|]; eexists; split; [reflexivity|];
                      intros X; first [discriminate X
                                      | left; eexists; split; reflexivity
-                                     | right; eexists; reflexivity
+                                     | right; right; reflexivity
+                                     | right; left; eexists; reflexivity
                                      | right; destruct who; [discriminate X|];
+                                       left; eexists; reflexivity
+                                     | right; destruct who; [discriminate X|];
+                                       destruct ckbad; [right; reflexivity|left];
                                        eexists; reflexivity ]]
             | solve [right; split; [reflexivity|]; split;
                      [intros X; first [exact X | reflexivity | discriminate X
@@ -412,7 +463,7 @@ Section Lin.
     destruct (Nat.eq_dec t u) as [->|N].
     - destruct (tget (g_thr g) u) as [ts|] eqn:Ht; [|contradiction].
       destruct (cstep_shape _ _ _ _ St Ht) as (ts' & Et & _). rewrite Et, tget_tset_same. discriminate.
-    - rewrite (cstep_frame_other H cmp nops _ _ _ _ St N). exact E.
+    - rewrite (cstep_frame_other H cmp nops bad ckbad _ _ _ _ St N). exact E.
   Qed.
 
   (* ---------------------------------------------------------------------------------- *)
@@ -711,7 +762,7 @@ Section Lin.
           - apply step_needs_thread. exact Ht. }
       destruct (classic_wlockw (t_pc ts)) as [(w & Hpc)|Hpc].
       - rewrite (wev_at n ts w Ht Hpc). cbn [map fold_left wl_o].
-        destruct (C04_apply_never_panics H cmp cmp_refl cmp_eq cmp_antisym cmp_trans nops thr0
+        destruct (C04_apply_never_panics H cmp cmp_refl cmp_eq cmp_antisym cmp_trans nops bad ckbad thr0
                     thr0_nodup cas0 cas0_sorted cas0_named NoCollideC (st n) (who n) ts w
                     (st_reach n) Ht Hpc) as (_ & _ & idx' & un & Ea).
         assert (Es : step (st n) (who n) =
@@ -731,8 +782,8 @@ Section Lin.
       - rewrite (wev_nil n ts Ht Hpc). cbn [map fold_left].
         unfold kmap. destruct (step (st n) (who n)) as [g'|] eqn:E.
         + rewrite (st_S_some n g' Hn' E).
-          destruct (cstep_km H cmp nops _ _ _ E) as [K|(ts2 & w & Ht2 & Hpc2)].
-          * rewrite K. reflexivity.
+          destruct (cstep_km H cmp nops bad ckbad _ _ _ E) as [K|(ts2 & w & Ht2 & Hpc2)].
+          * exact (proj1 K).
           * unfold tst in Ht. rewrite Ht in Ht2. injection Ht2 as <-.
             exfalso. apply (Hpc w). exact Hpc2.
         + rewrite (st_S_none n Hn' E). reflexivity.
@@ -773,7 +824,8 @@ Section Lin.
     Definition pc_hist (m s : nat) (c : ccall) (t j : nat) (p : pc) : Prop :=
       match p with
       | Idle => False
-      | PReg k x | PILock k x | PRen k x => c = KPut k x
+      | PReg k x | PILock k x | PRen k x _ => c = KPut k x
+      | PDropI k _ _ => exists x, c = KPut k x
       | WLockI w | WLockS w | WLockW w => wk_hist m s c t w
       | WApplied w _ _ | WUnlink w _ _ | WReleased w _ =>
         wk_hist m s c t w /\ applied m s t j (wop w)
@@ -825,10 +877,10 @@ Section Lin.
     Lemma wk_lin m s c t w : (s < m)%nat -> wk_hist m s c t w -> lin_win m s c t (wres w).
     Proof.
       intros L. destruct w as [k h sz|ks r]; cbn [wk_hist wres].
-      - intros (x & -> & _ & _). exists m. split; [lia|]. split; [reflexivity|].
+      - intros (x & -> & _ & _). exists m. split; [lia|]. split; [apply lin_ok; reflexivity|].
         cbn [observes]. discriminate.
       - intros (q & B & O & [(k & -> & -> & -> & G)|(lo & hi & -> & E & NE & ->)]);
-          exists q; (split; [lia|]); (split; [|intros _; exact O]); cbn [lin_spec].
+          exists q; (split; [lia|]); (split; [|intros _; exact O]); apply lin_ok; cbn [lin_spec0].
         + destruct (sm_get cmp (kmap q) k); [reflexivity|contradiction].
         + rewrite E. reflexivity.
     Qed.
@@ -841,6 +893,15 @@ Section Lin.
           [reflexivity|].
         destruct ks as [|a l]; [contradiction|]. cbn [length].
         destruct (N.eqb_spec (N.of_nat (S (length l))) 0) as [Z|Z]; [lia|reflexivity].
+    Qed.
+
+    Lemma wk_can_err m s c t w : wk_hist m s c t w -> can_err c = true.
+    Proof. intros X. eapply writes_can_err, wk_writes, X. Qed.
+
+    (* a call that can fail may return the error at any point of its window *)
+    Lemma lin_win_err m s c t r : can_err c = true -> lin_win m s c t r -> lin_win m s c t CErr.
+    Proof.
+      intros E (q & B & _ & O). exists q. split; [exact B|]. split; [apply lin_err, E|exact O].
     Qed.
 
     (* what is known when a call returns at step n *)
@@ -892,13 +953,17 @@ Section Lin.
     Proof.
       intros Hn Ht St Ht' Hs Hh. pose proof (st_inv n) as I.
       pose proof Ht as Ht0. unfold tst in Ht0.
-      destruct (ci_pc _ _ _ _ _ I _ _ Ht0) as [Pt _].
+      destruct (ci_pc _ _ _ _ _ _ I _ _ Ht0) as [Pt _].
       revert St. unfold cstep. rewrite Ht0. revert Pt Hh.
       destruct (t_pc ts) eqn:Hpc; cbn [pc_ok pc_hist]; intros Pt Hh.
       - (* Idle *) contradiction.
       - (* PReg *) step_go Ht' n. exact Hh.
       - (* PILock *) step_go Ht' n. exact Hh.
-      - (* PRen *) step_go Ht' n. cbn [wk_hist]. eexists. split; [exact Hh|split; reflexivity].
+      - (* PRen *) step_go Ht' n.
+        + eexists. exact Hh.
+        + cbn [wk_hist]. eexists. split; [exact Hh|split; reflexivity].
+      - (* PDropI *) step_go Ht' n. destruct Hh as (x & ->).
+        apply fin_here; try assumption; [apply lin_err; reflexivity|discriminate|reflexivity].
       - (* WLockI *) step_go Ht' n. eapply wk_hist_mono; [|exact Hh]; lia.
       - (* WLockS *) step_go Ht' n. eapply wk_hist_mono; [|exact Hh]; lia.
       - (* WLockW *) step_go Ht' n. split; [eapply wk_hist_mono; [|exact Hh]; lia|].
@@ -907,6 +972,10 @@ Section Lin.
       - (* WApplied *) step_go Ht' n; destruct Hh as [A B];
           (split; [eapply wk_hist_mono; [|exact A]; lia|eapply applied_mono; [|exact B]; lia]).
       - (* WUnlink *) step_go Ht' n; destruct Hh as [A B];
+          [apply fin_win;
+             [eapply lin_win_err; [eapply wk_can_err; exact A|apply wk_lin; [exact Hs|exact A]]
+             |intros _; eexists; exact B]
+          | |];
           (split; [eapply wk_hist_mono; [|exact A]; lia|eapply applied_mono; [|exact B]; lia]).
       - (* WReleased *) step_go Ht' n; destruct Hh as [A B].
         + split; [eapply lin_win_mono; [|eapply wk_lin; [|exact A]]; lia|].
@@ -916,15 +985,24 @@ Section Lin.
         + apply fin_win; [apply wk_lin; assumption|]. intros _. eexists. exact B.
       - (* WCkS *) step_go Ht' n. destruct Hh as [A B].
         split; [eapply lin_win_mono; [|exact A]; lia|eapply ck_hist_mono; [|exact B]; lia].
-      - (* WCkW *) step_go Ht' n. destruct Hh as [A B]. apply fin_win; [exact A|].
-        intros W. destruct who0; cbn [ck_hist] in B; [subst c; discriminate W|apply B].
+      - (* WCkW *) step_go Ht' n; destruct Hh as [A B]; [|destruct ckbad].
+        + (* the checkpoint is skipped *)
+          apply fin_win; [exact A|].
+          intros W. destruct who0; cbn [ck_hist] in B; [subst c; discriminate W|apply B].
+        + apply fin_win.
+          * eapply lin_win_err; [|exact A].
+            destruct who0; cbn [ck_hist] in B; [subst c; reflexivity|].
+            eapply writes_can_err, B.
+          * intros W. destruct who0; cbn [ck_hist] in B; [subst c; discriminate W|apply B].
+        + apply fin_win; [exact A|].
+          intros W. destruct who0; cbn [ck_hist] in B; [subst c; discriminate W|apply B].
       - (* RRead *) step_go Ht' n; subst c.
         + exists n. split; [lia|]. split.
           { apply (own_now n ts); [assumption|assumption|rewrite Hpc; reflexivity]. }
           left. exists k. split; [reflexivity|]. split; [reflexivity|]. split; [reflexivity|].
           congruence.
         + apply fin_here; try assumption.
-          * cbn [lin_spec].
+          * apply lin_ok; cbn [lin_spec0].
             match goal with G : sm_get cmp (kmap n) k = None |- _ => rewrite G end. reflexivity.
           * intros _. rewrite Hpc. reflexivity.
           * reflexivity.
@@ -933,7 +1011,7 @@ Section Lin.
         split; [|reflexivity].
         apply (own_now n ts); [assumption|assumption|rewrite Hpc, Hh; reflexivity].
       - (* RRScanned *) step_go Ht' n; destruct Hh as (lo & hi & -> & q & B & O & K).
-        + exists q. split; [lia|]. split; [cbn [lin_spec]; rewrite <- K; reflexivity|].
+        + exists q. split; [lia|]. split; [apply lin_ok; cbn [lin_spec0]; rewrite <- K; reflexivity|].
           split; [intros _; exact O|]. cbn [writes]. change (0 =? 0) with true. discriminate.
         + cbn [wk_hist]. exists q. split; [lia|]. split; [exact O|]. right. exists lo, hi.
           split; [reflexivity|]. split; [exact K|]. split; [discriminate|reflexivity].
@@ -943,42 +1021,50 @@ Section Lin.
           rewrite Hpc. destruct size_only; cbn [rd_call lin_pc]; auto.
         + apply fin_here; try assumption.
           * match goal with G : sm_get cmp (kmap n) k = None |- _ =>
-              destruct size_only; cbn [rd_call lin_spec]; rewrite G; reflexivity end.
+              destruct size_only; apply lin_ok; cbn [rd_call lin_spec0]; rewrite G; reflexivity end.
           * intros _. rewrite Hpc. destruct size_only; cbn [rd_call lin_pc]; auto.
           * destruct size_only; reflexivity.
       - (* GLooked *) step_go Ht' n.
-        + destruct Hh as [-> (q & B & O & G)]. exists q. split; [lia|]. cbn [rd_call lin_spec].
-          split; [rewrite G; reflexivity|]. split; [intros _; exact O|]. discriminate.
+        + destruct Hh as [-> (q & B & O & G)]. exists q. split; [lia|]. cbn [rd_call].
+          split; [apply lin_ok; cbn [lin_spec0]; rewrite G; reflexivity|].
+          split; [intros _; exact O|]. discriminate.
         + destruct Hh as [-> L]. split; [reflexivity|]. eapply looked_mono; [|exact L]; lia.
       - (* GOpen *) step_go Ht' n.
-        + destruct Hh as [-> (q & B & O & G)]. exists q. split; [lia|]. cbn [lin_spec].
+        + destruct Hh as [-> (q & B & O & G)]. exists q. split; [lia|].
+          split; [apply lin_err; reflexivity|split; [intros _; exact O|discriminate]].
+        + destruct Hh as [-> (q & B & O & G)]. exists q. split; [lia|].
           split; [|split; [intros _; exact O|discriminate]].
+          apply lin_ok; cbn [lin_spec0].
           rewrite G. eexists. split; [reflexivity|]. eapply open_content; eassumption.
         + apply Hh.
       - (* GReread *) step_go Ht' n; subst c; [reflexivity|].
         apply fin_here; try assumption.
-        + cbn [lin_spec].
+        + apply lin_ok; cbn [lin_spec0].
           match goal with G : sm_get cmp (kmap n) k = None |- _ => rewrite G end. reflexivity.
         + intros _. rewrite Hpc. cbn [lin_pc]. right; left. eexists. reflexivity.
         + reflexivity.
       - (* GOpenL *) step_go Ht' n; subst c.
         + apply fin_here; try assumption.
-          * cbn [lin_spec]. rewrite Pt. eexists. split; [reflexivity|].
+          * apply lin_err; reflexivity.
+          * intros _. rewrite Hpc. cbn [lin_pc]. right; right. eexists. reflexivity.
+          * reflexivity.
+        + apply fin_here; try assumption.
+          * apply lin_ok; cbn [lin_spec0]. rewrite Pt. eexists. split; [reflexivity|].
             eapply open_content; [exact I| |eassumption].
             eapply km_valid_item; eassumption.
           * intros _. rewrite Hpc. cbn [lin_pc]. right; right. eexists. reflexivity.
           * reflexivity.
-        + exfalso. apply (KX get_in) in Pt; [|apply (ci_idx _ _ _ _ _ I)].
-          destruct (ci_nodangling _ _ _ _ _ I _ _ Pt) as (c1 & G1 & _). congruence.
+        + exfalso. apply (KX get_in) in Pt; [|apply (ci_idx _ _ _ _ _ _ I)].
+          destruct (ci_nodangling _ _ _ _ _ _ I _ _ Pt) as (c1 & G1 & _). congruence.
       - (* OLockI *) step_go Ht' n; try exact Hh; destruct Hh as (hs & ->);
           (apply fin_here; try assumption;
-           [cbn [lin_spec]; eexists _, _; reflexivity|discriminate|reflexivity]).
+           [apply lin_ok; cbn [lin_spec0]; eexists _, _; reflexivity|discriminate|reflexivity]).
       - (* ORead *) step_go Ht' n; try exact Hh; destruct Hh as (hs & ->);
           (apply fin_here; try assumption;
-           [cbn [lin_spec]; eexists _, _; reflexivity|discriminate|reflexivity]).
+           [apply lin_ok; cbn [lin_spec0]; eexists _, _; reflexivity|discriminate|reflexivity]).
       - (* OUnlink *) step_go Ht' n; try exact Hh; destruct Hh as (hs & ->);
           (apply fin_here; try assumption;
-           [cbn [lin_spec]; eexists _, _; reflexivity|discriminate|reflexivity]).
+           [apply lin_ok; cbn [lin_spec0]; eexists _, _; reflexivity|discriminate|reflexivity]).
     Qed.
 
 
@@ -1002,11 +1088,12 @@ Section Lin.
         rewrite tget_tset_same in Ht'; injection Ht' as <-; cbn [t_pc t_calls t_res];
         (split; [reflexivity|]); (split; [reflexivity|]);
         try (split; [reflexivity|]; cbn [pc_hist]); try reflexivity.
-      - (* KAbort *) eexists. split; [reflexivity|]. repeat split.
+      - (* KAbort *) eexists. split; [reflexivity|].
+        split; [apply lin_ok; reflexivity|split; reflexivity].
       - (* KCheckpoint *) split; [|reflexivity]. exists (S n). split; [lia|].
-        split; [reflexivity|discriminate].
+        split; [apply lin_ok; reflexivity|discriminate].
       - (* KDelOrphans [] *) eexists. split; [reflexivity|]. split; [|split; reflexivity].
-        eexists _, _. reflexivity.
+        apply lin_ok. eexists _, _. reflexivity.
       - (* KDelOrphans (_ :: _) *) eexists. reflexivity.
     Qed.
 
@@ -1169,7 +1256,7 @@ Section Lin.
         tst (S i) (who i) = Some (mkT (t_calls ts) (WApplied w un rolled) (t_res ts)).
     Proof.
       intros Hi Ht Hpc.
-      destruct (C04_apply_never_panics H cmp cmp_refl cmp_eq cmp_antisym cmp_trans nops thr0
+      destruct (C04_apply_never_panics H cmp cmp_refl cmp_eq cmp_antisym cmp_trans nops bad ckbad thr0
                   thr0_nodup cas0 cas0_sorted cas0_named NoCollideC (st i) (who i) ts w
                   (st_reach i) Ht Hpc) as (_ & _ & idx' & un & Ea).
       assert (Es : exists g', step (st i) (who i) = Some g' /\
@@ -1281,41 +1368,43 @@ Section Lin.
        strictly after the call was taken and not after its return; q is the thread's own
        last lookup step *)
     Theorem C05_read_linearizable t j k r :
-      nth_error (prog t) j = Some (KGet k) -> final_res t j r ->
+      nth_error (prog t) j = Some (KGet k) -> final_res t j r -> r <> CErr ->
       exists s e q, starts_at s t j (KGet k) /\ ends_at e t j r /\ (s < q <= e)%nat /\
         own q t (KGet k) /\
         exists o, r = CBytes o /\ val q k = option_map (fun x => (H x, len x)) o /\
                   (forall x, o = Some x -> sm_get lex_cmp (g_cas (st q)) (H x) = Some x).
     Proof.
-      intros Hc Hf. destruct (final_fin _ _ _ _ Hc Hf) as (s & e & q & A & B & _ & D & E & F & G & _).
+      intros Hc Hf NE. destruct (final_fin _ _ _ _ Hc Hf) as (s & e & q & A & B & _ & D & E & F & G & _).
       exists s, e, q. split; [exact A|]. split; [exact B|].
       split; [specialize (E eq_refl); lia|]. split; [apply G; reflexivity|].
-      cbn [lin_spec] in F. unfold val. destruct (sm_get cmp (kmap q) k) as [it|] eqn:Gk.
+      apply lin_inv in F; [|exact NE].
+      cbn [lin_spec0] in F. unfold val. destruct (sm_get cmp (kmap q) k) as [it|] eqn:Gk.
       - destruct F as (x & -> & Ix & Hh & Hl). exists (Some x). split; [reflexivity|].
         cbn [option_map]. split; [rewrite Hh, Hl; reflexivity|].
         intros x' Ex. injection Ex as <-.
-        destruct (C04_no_dangling H cmp cmp_refl cmp_eq cmp_antisym cmp_trans nops thr0 thr0_nodup
+        destruct (C04_no_dangling H cmp cmp_refl cmp_eq cmp_antisym cmp_trans nops bad ckbad thr0 thr0_nodup
                     cas0 cas0_sorted cas0_named NoCollideC (st q) (st_reach q) k it Gk)
           as (c' & Gc & Hh' & _).
         rewrite Hh, Gc. f_equal.
-        apply (lex_get_in _ _ _ (ci_cas_sorted _ _ _ _ _ (st_inv q))) in Gc.
-        destruct (ci_cas_named _ _ _ _ _ (st_inv q) _ _ Gc) as [_ Ic'].
+        apply (lex_get_in _ _ _ (ci_cas_sorted _ _ _ _ _ _ (st_inv q))) in Gc.
+        destruct (ci_cas_named _ _ _ _ _ _ (st_inv q) _ _ Gc) as [_ Ic'].
         apply NoCollideC; [exact Ic'|exact Ix|congruence].
       - subst r. exists None. split; [reflexivity|]. split; [reflexivity|]. intros x Ex. discriminate.
     Qed.
 
     (* the same, in the two-case form *)
     Corollary C05_read_linearizable_cases t j k r :
-      nth_error (prog t) j = Some (KGet k) -> final_res t j r ->
+      nth_error (prog t) j = Some (KGet k) -> final_res t j r -> r <> CErr ->
       exists s e q, starts_at s t j (KGet k) /\ ends_at e t j r /\ (s < q <= e)%nat /\
         ((r = CBytes None /\ sm_get cmp (kmap q) k = None) \/
          (exists x it, r = CBytes (Some x) /\ sm_get cmp (kmap q) k = Some it /\
                        H x = ihash it /\ len x = isize it)).
     Proof.
-      intros Hc Hf. destruct (final_fin _ _ _ _ Hc Hf) as (s & e & q & A & B & _ & D & E & F & _).
+      intros Hc Hf NE. destruct (final_fin _ _ _ _ Hc Hf) as (s & e & q & A & B & _ & D & E & F & _).
       exists s, e, q. split; [exact A|]. split; [exact B|].
       split; [specialize (E eq_refl); lia|].
-      cbn [lin_spec] in F. destruct (sm_get cmp (kmap q) k) as [it|].
+      apply lin_inv in F; [|exact NE].
+      cbn [lin_spec0] in F. destruct (sm_get cmp (kmap q) k) as [it|].
       - right. destruct F as (x & -> & _ & Hh & Hl). exists x, it.
         split; [reflexivity|]. split; [reflexivity|]. split; assumption.
       - left. split; [exact F|reflexivity].
@@ -1329,21 +1418,22 @@ Section Lin.
       intros Hc Hf. destruct (final_fin _ _ _ _ Hc Hf) as (s & e & q & A & B & _ & D & E & F & G & _).
       exists s, e, q. split; [exact A|]. split; [exact B|].
       split; [specialize (E eq_refl); lia|]. split; [apply G; reflexivity|].
-      cbn [lin_spec] in F. rewrite F. unfold val.
+      apply lin_inv' in F; [|reflexivity].
+      cbn [lin_spec0] in F. rewrite F. unfold val.
       destruct (sm_get cmp (kmap q) k); reflexivity.
     Qed.
 
     (* P2 in terms of the programs thr0 and of the final state *)
     Corollary C05_read_linearizable_thr0 t cs ts j k r :
       In (t, cs) thr0 -> nth_error cs j = Some (KGet k) ->
-      tget (g_thr (run g0 sched)) t = Some ts -> nth_error (t_res ts) j = Some r ->
+      tget (g_thr (run g0 sched)) t = Some ts -> nth_error (t_res ts) j = Some r -> r <> CErr ->
       exists s e q, starts_at s t j (KGet k) /\ ends_at e t j r /\ (s < q <= e)%nat /\
         ((r = CBytes None /\ val q k = None) \/
          (exists x, r = CBytes (Some x) /\ val q k = Some (H x, len x) /\
                     sm_get lex_cmp (g_cas (st q)) (H x) = Some x)).
     Proof.
-      intros I Hc Ht Hr. rewrite <- (prog_thr0 t cs I) in Hc.
-      destruct (C05_read_linearizable t j k r Hc (ex_intro _ ts (conj Ht Hr)))
+      intros I Hc Ht Hr NE. rewrite <- (prog_thr0 t cs I) in Hc.
+      destruct (C05_read_linearizable t j k r Hc (ex_intro _ ts (conj Ht Hr)) NE)
         as (s & e & q & A & B & C & _ & o & -> & V & K).
       exists s, e, q. split; [exact A|]. split; [exact B|]. split; [exact C|].
       destruct o as [x|]; cbn [option_map] in V.
@@ -1353,28 +1443,30 @@ Section Lin.
 
     (* P5: remove reports the presence of the key as of its own scan step (parked at RRead) *)
     Theorem C05_remove_linearizable t j k r :
-      nth_error (prog t) j = Some (KRemove k) -> final_res t j r ->
+      nth_error (prog t) j = Some (KRemove k) -> final_res t j r -> r <> CErr ->
       exists s e q, starts_at s t j (KRemove k) /\ ends_at e t j r /\ (s < q <= e)%nat /\
         own q t (KRemove k) /\
         r = CBool (match val q k with Some _ => true | None => false end).
     Proof.
-      intros Hc Hf. destruct (final_fin _ _ _ _ Hc Hf) as (s & e & q & A & B & _ & D & E & F & G & _).
+      intros Hc Hf NE. destruct (final_fin _ _ _ _ Hc Hf) as (s & e & q & A & B & _ & D & E & F & G & _).
       exists s, e, q. split; [exact A|]. split; [exact B|].
       split; [specialize (E eq_refl); lia|]. split; [apply G; reflexivity|].
-      cbn [lin_spec] in F. rewrite F. unfold val.
+      apply lin_inv in F; [|exact NE].
+      cbn [lin_spec0] in F. rewrite F. unfold val.
       destruct (sm_get cmp (kmap q) k); reflexivity.
     Qed.
 
     (* remove_range reports the number of keys in range as of its own scan step (RRRead) *)
     Theorem C05_remove_range_linearizable t j lo hi r :
-      nth_error (prog t) j = Some (KRemoveRange lo hi) -> final_res t j r ->
+      nth_error (prog t) j = Some (KRemoveRange lo hi) -> final_res t j r -> r <> CErr ->
       exists s e q, starts_at s t j (KRemoveRange lo hi) /\ ends_at e t j r /\ (s < q <= e)%nat /\
         own q t (KRemoveRange lo hi) /\
         r = CNum (N.of_nat (length (keys_in cmp (kmap q) lo hi))).
     Proof.
-      intros Hc Hf. destruct (final_fin _ _ _ _ Hc Hf) as (s & e & q & A & B & _ & D & E & F & G & _).
+      intros Hc Hf NE. destruct (final_fin _ _ _ _ Hc Hf) as (s & e & q & A & B & _ & D & E & F & G & _).
       exists s, e, q. split; [exact A|]. split; [exact B|].
-      split; [specialize (E eq_refl); lia|]. split; [apply G; reflexivity|exact F].
+      split; [specialize (E eq_refl); lia|]. split; [apply G; reflexivity|].
+      apply lin_inv in F; [exact F|exact NE].
     Qed.
 
     (* ------------------------------------------------------------------------------ *)
@@ -1399,7 +1491,7 @@ Section Lin.
       exists c s, nth_error (prog (wl_t e)) (wl_j e) = Some c /\
         starts_at s (wl_t e) (wl_j e) c /\ (s < wl_p e)%nat /\
         op_of_call s (wl_p e) (wl_t e) c (wl_o e) /\
-        (forall e' r, ends_at e' (wl_t e) (wl_j e) r -> (wl_p e < e')%nat /\ writes c r = true).
+        (forall e' r, ends_at e' (wl_t e) (wl_j e) r -> (wl_p e < e')%nat /\ may_write c r).
     Proof.
       intros Hn I. destruct (wlog_entry_at n e I) as (Hp & Hw & ts & w & Ht & Hpc & Hj & Ho).
       destruct (entry_mu2 n e Hn I) as [_ M2].
@@ -1441,10 +1533,11 @@ Section Lin.
       2:{ exfalso. rewrite R2 in R1. apply (f_equal (@length cres)) in R1.
           rewrite app_length in R1. cbn [length] in R1. lia. }
       rewrite R2 in R1. apply app_inv_head in R1. injection R1 as ->.
-      destruct (Hfin Ap) as [(w2 & Hpc2 & ->)|(e2 & Hpc2)]; rewrite Hpc2 in Hh2;
-        cbn [pc_hist] in Hh2.
-      - eapply wk_writes. apply Hh2.
-      - destruct Hh2 as [_ K]. cbn [ck_hist] in K. apply K.
+      destruct (Hfin Ap) as [(w2 & Hpc2 & ->)|[(e2 & Hpc2)| -> ]];
+        [rewrite Hpc2 in Hh2; cbn [pc_hist] in Hh2|rewrite Hpc2 in Hh2; cbn [pc_hist] in Hh2|].
+      - left. eapply wk_writes. apply Hh2.
+      - left. destruct Hh2 as [_ K]. cbn [ck_hist] in K. apply K.
+      - right. reflexivity.
     Qed.
 
     (* real time: if the call of e1 returned before the call of e2 was taken, e1 precedes e2 *)
@@ -1496,7 +1589,7 @@ Section Lin.
       (forall e, In e ws ->
          exists c s e' r, nth_error (prog (wl_t e)) (wl_j e) = Some c /\
            starts_at s (wl_t e) (wl_j e) c /\ ends_at e' (wl_t e) (wl_j e) r /\
-           (s < wl_p e < e')%nat /\ writes c r = true /\
+           (s < wl_p e < e')%nat /\ may_write c r /\
            op_of_call s (wl_p e) (wl_t e) c (wl_o e)) /\
       (forall t j c r, nth_error (prog t) j = Some c -> final_res t j r -> writes c r = true ->
          exists e, In e ws /\ wl_t e = t /\ wl_j e = j) /\
@@ -1541,19 +1634,21 @@ Section Lin.
     Qed.
 
     Theorem C05_put_visible t j k x e rp u ju s ru :
-      nth_error (prog t) j = Some (KPut k x) -> ends_at e t j rp ->
+      nth_error (prog t) j = Some (KPut k x) -> ends_at e t j rp -> rp <> CErr ->
       nth_error (prog u) ju = Some (KGet k) -> starts_at s u ju (KGet k) -> (e < s)%nat ->
-      final_res u ju ru ->
+      final_res u ju ru -> ru <> CErr ->
       exists p q eu, (p < e)%nat /\ ends_at eu u ju ru /\ (s < q <= eu)%nat /\
         In (mkWl p t j (RPut k (H x) (len x))) (wlog q) /\
         (ru = CBytes (Some x) \/
          exists e', In e' (wlog q) /\ (p < wl_p e')%nat /\ touches (wl_o e') k).
     Proof.
-      intros Hc He Hcu Hsu L Hf.
+      intros Hc He NEp Hcu Hsu L Hf NEu.
+      assert (Wp : writes (KPut k x) rp = true)
+        by (cbn [writes]; rewrite (is_err_false _ NEp); reflexivity).
       (* the put and its entry *)
       destruct (ended_call _ _ _ _ _ He Hc) as (s0 & e0 & _ & A0 & B0 & _ & _ & _ & _ & _ & K0).
       destruct (ends_at_unique _ _ _ _ _ _ B0 He) as [-> _].
-      destruct (K0 eq_refl) as (p & o & Bp & Ip).
+      destruct (K0 Wp) as (p & o & Bp & Ip).
       assert (HSe : (S e <= NN)%nat) by (destruct He as (X & _); lia).
       destruct (wlog_entry_call (S e) _ HSe Ip) as (c' & s' & Hc' & _ & _ & Ho & _).
       cbn [wl_t wl_j wl_o wl_p] in *. rewrite Hc in Hc'. injection Hc' as <-.
@@ -1571,7 +1666,8 @@ Section Lin.
       { eapply wlog_mono; [|exact Ip]. lia. }
       exists p, q, e1. split; [lia|]. split; [exact B1|]. split; [lia|]. split; [exact Iq|].
       destruct (put_in_log q _ k (H x) (len x) Hq Iq eq_refl) as [G|(e' & Ie' & Lp' & T)].
-      - left. cbn [lin_spec] in F1. rewrite G in F1. cbn [ihash isize] in F1.
+      - left. apply lin_inv in F1; [|exact NEu].
+        cbn [lin_spec0] in F1. rewrite G in F1. cbn [ihash isize] in F1.
         destruct F1 as (x' & -> & Ix' & Hh & _).
         destruct (prog_in _ _ _ Hc) as (cs & Ics & Ep & _).
         assert (Ix : In x (allc thr0 cas0)).
@@ -1586,16 +1682,18 @@ Section Lin.
        step) the key holds the item of x, unless an entry applied after the put's own WLockW
        step p (and before e) has replaced or removed it *)
     Theorem C05_put_applied_at_return t j k x e rp :
-      nth_error (prog t) j = Some (KPut k x) -> ends_at e t j rp ->
+      nth_error (prog t) j = Some (KPut k x) -> ends_at e t j rp -> rp <> CErr ->
       exists s p, starts_at s t j (KPut k x) /\ (s < p < e)%nat /\
         In (mkWl p t j (RPut k (H x) (len x))) (wlog e) /\
         (sm_get cmp (kmap e) k = Some (mkItem (H x) (len x)) \/
          exists e', In e' (wlog e) /\ (p < wl_p e')%nat /\ touches (wl_o e') k).
     Proof.
-      intros Hc He.
+      intros Hc He NEp.
+      assert (Wp : writes (KPut k x) rp = true)
+        by (cbn [writes]; rewrite (is_err_false _ NEp); reflexivity).
       destruct (ended_call _ _ _ _ _ He Hc) as (s0 & e0 & _ & A0 & B0 & _ & _ & _ & _ & _ & K0).
       destruct (ends_at_unique _ _ _ _ _ _ B0 He) as [-> _].
-      destruct (K0 eq_refl) as (p & o & Bp & Ip).
+      destruct (K0 Wp) as (p & o & Bp & Ip).
       assert (HSe : (S e <= NN)%nat) by (destruct He as (X & _); lia).
       destruct (wlog_entry_call (S e) _ HSe Ip) as (c' & s' & Hc' & _ & _ & Ho & _).
       cbn [wl_t wl_j wl_o wl_p] in *. rewrite Hc in Hc'. injection Hc' as <-.
@@ -1660,10 +1758,10 @@ Definition schedR1 : list nat :=
 Definition schedR2 : list nat :=
   repeat 1%nat 9 ++ [2; 2]%nat ++ repeat 1%nat 7 ++ [2; 2]%nat ++ repeat 1%nat 3.
 
-Notation stR := (st toyH lex_cmp 100 progR []).
-Notation tstR := (tst toyH lex_cmp 100 progR []).
-Notation valR := (val toyH lex_cmp 100 progR []).
-Notation wlogR := (wlog toyH lex_cmp 100 progR []).
+Notation stR := (st toyH lex_cmp 100 nobad false progR []).
+Notation tstR := (tst toyH lex_cmp 100 nobad false progR []).
+Notation valR := (val toyH lex_cmp 100 nobad false progR []).
+Notation wlogR := (wlog toyH lex_cmp 100 nobad false progR []).
 
 (* schedule 1: the reader returns the NEW content; witness position q = 24 (its open under
    the shared lock), inside its interval [9, 24]; at its first lookup (10) the key held the
@@ -1679,9 +1777,9 @@ Example race1_trace :
 Proof. vm_compute. repeat split. Qed.
 
 Example race1_witness :
-  starts_at toyH lex_cmp 100 progR [] schedR1 9 2 0 (KGet [1]) /\
-  ends_at toyH lex_cmp 100 progR [] schedR1 24 2 0 (CBytes (Some [20; 21])) /\
-  own toyH lex_cmp 100 progR [] schedR1 24 2 (KGet [1]) /\
+  starts_at toyH lex_cmp 100 nobad false progR [] schedR1 9 2 0 (KGet [1]) /\
+  ends_at toyH lex_cmp 100 nobad false progR [] schedR1 24 2 0 (CBytes (Some [20; 21])) /\
+  own toyH lex_cmp 100 nobad false progR [] schedR1 24 2 (KGet [1]) /\
   valR schedR1 24 [1] = Some (toyH [20; 21], len [20; 21]).
 Proof.
   split; [|split; [|split]].
@@ -1708,9 +1806,9 @@ Example race2_trace :
 Proof. vm_compute. repeat split. Qed.
 
 Example race2_witness :
-  starts_at toyH lex_cmp 100 progR [] schedR2 9 2 0 (KGet [1]) /\
-  ends_at toyH lex_cmp 100 progR [] schedR2 19 2 0 (CBytes (Some [10])) /\
-  own toyH lex_cmp 100 progR [] schedR2 10 2 (KGet [1]) /\
+  starts_at toyH lex_cmp 100 nobad false progR [] schedR2 9 2 0 (KGet [1]) /\
+  ends_at toyH lex_cmp 100 nobad false progR [] schedR2 19 2 0 (CBytes (Some [10])) /\
+  own toyH lex_cmp 100 nobad false progR [] schedR2 10 2 (KGet [1]) /\
   valR schedR2 10 [1] = Some (toyH [10], len [10]).
 Proof.
   split; [|split; [|split]].
@@ -1725,26 +1823,31 @@ Qed.
 
 (* the general theorems on this program, for EVERY schedule *)
 Example progR_reads_linearizable sched r :
-  final_res toyH lex_cmp 100 progR [] sched 2 0 r ->
-  exists s e q, starts_at toyH lex_cmp 100 progR [] sched s 2 0 (KGet [1]) /\
-    ends_at toyH lex_cmp 100 progR [] sched e 2 0 r /\ (s < q <= e)%nat /\
-    own toyH lex_cmp 100 progR [] sched q 2 (KGet [1]) /\
+  final_res toyH lex_cmp 100 nobad false progR [] sched 2 0 r ->
+  exists s e q, starts_at toyH lex_cmp 100 nobad false progR [] sched s 2 0 (KGet [1]) /\
+    ends_at toyH lex_cmp 100 nobad false progR [] sched e 2 0 r /\ (s < q <= e)%nat /\
+    own toyH lex_cmp 100 nobad false progR [] sched q 2 (KGet [1]) /\
     exists o, r = CBytes o /\ valR sched q [1] = option_map (fun x => (toyH x, len x)) o /\
               (forall x, o = Some x -> sm_get lex_cmp (g_cas (stR sched q)) (toyH x) = Some x).
 Proof.
-  apply (C05_read_linearizable toyH lex_cmp lex_refl lex_eq lex_antisym lex_trans 100 progR
+  intros Hf.
+  apply (C05_read_linearizable toyH lex_cmp lex_refl lex_eq lex_antisym lex_trans 100 nobad false progR
            progR_nodup [] I (fun h c (F : In (h, c) []) => match F with end) progR_nocollide
-           sched 2 0 [1] r).
-  reflexivity.
+           sched 2 0 [1] r); [reflexivity|exact Hf|].
+  (* without faults no result is the I/O error *)
+  destruct Hf as (ts & Ht & Hr). intros ->. apply nth_error_In in Hr. revert Hr.
+  apply (no_faults_no_errors toyH lex_cmp lex_refl lex_eq lex_antisym lex_trans 100 nobad false progR
+           progR_nodup [] I (fun h c (F : In (h, c) []) => match F with end) progR_nocollide
+           _ (fun _ => eq_refl) eq_refl (ex_intro _ sched eq_refl) 2%nat ts Ht).
 Qed.
 
 Example progR_final_linearization sched :
-  all_finished (crun toyH lex_cmp 100 (init_c progR []) sched) = true ->
-  km (g_idx (crun toyH lex_cmp 100 (init_c progR []) sched)) =
+  all_finished (crun toyH lex_cmp 100 nobad false (init_c progR []) sched) = true ->
+  km (g_idx (crun toyH lex_cmp 100 nobad false (init_c progR []) sched)) =
   fold_left (kstep lex_cmp) (map wl_o (wlogR sched (NN sched))) [].
 Proof.
   intros AF.
-  apply (C05_final_is_linearization toyH lex_cmp lex_refl lex_eq lex_antisym lex_trans 100 progR
+  apply (C05_final_is_linearization toyH lex_cmp lex_refl lex_eq lex_antisym lex_trans 100 nobad false progR
            progR_nodup [] I (fun h c (F : In (h, c) []) => match F with end) progR_nocollide
            sched AF).
 Qed.
